@@ -59,6 +59,16 @@ pub fn check(rep: &mut Rep, w: &World, t: i128, su: TimeScale, dy: TimeScale) {
             if !flt::within_ulps(secs, g, NS_S, flt::ulp((g as f64 / 1e9).abs().max(1.0)), 8.0) {
                 rep.fail("to-dyn/seconds-view", None, || format!("{}: seconds view {} vs duration {}", det(), fmt_f64(secs), g));
             }
+            // float views of the same reading: days / centuries since J2000, JDE days
+            if let Ok(v) = guard(|| if dy == TimeScale::ET { (e.to_et_days_since_j2000(), e.to_et_centuries_since_j2000(), e.to_jde_et_days(), e.to_jde_et(hifitime::Unit::Second)) } else { (e.to_tdb_days_since_j2000(), e.to_tdb_centuries_since_j2000(), e.to_jde_tdb_days(), e.to_jde_tdb_duration().to_seconds()) }) {
+                let views = [("days_since_j2000", v.0, g, NS_D), ("centuries_since_j2000", v.1, g, NPC), ("jde_days", v.2, g + JDE_J2000_NS, NS_D), ("jde_seconds", v.3, g + JDE_J2000_NS, NS_S)];
+                for (name, x, num, den) in views {
+                    let ur = flt::ulp((num as f64 / den as f64).abs().max(1e9 / den as f64));
+                    if !flt::within_ulps(x, num, den, ur, 8.0) {
+                        rep.fail(&format!("to-dyn/float-view/{name}"), None, || format!("{}: {name} = {} vs exact {}/{}", det(), fmt_f64(x), num, den));
+                    }
+                }
+            }
             if count_d(jde) != g + JDE_J2000_NS {
                 rep.fail("to-dyn/jde-view", None, || format!("{}: JDE duration {} want {} + 2451545 d = {}", det(), count_d(jde), g, g + JDE_J2000_NS));
             }
